@@ -195,6 +195,97 @@ def run(tier, replay):
         key = "%s:%s:%s" % (m["name"], cls, site)
         ck.violation(key, "%s [%s plan %s]: %s" % (m["name"], m["kind"], m["sig"][:80], det),
                      {"job": m["job"], "result": rj, "kind": m["kind"]})
+    # ---- 3b. the accept/reject boundary of the beta-spectrum samplers (beta, beta1, beta2, beta_1fu): for the first beta
+    #      call of a witness path and a grid of trial energies from the lowest to the end point, the port's own boundary
+    #      r = fe(E)/fm is read from its trace; the trial is then replayed on port AND reference with the ordinate deviate
+    #      at r -/+ 3e-6: both programs must accept below and reject above, i.e. their normalised spectrum shapes agree
+    #      to 3e-6 at that energy - whatever the energy, also where random events almost never go
+    BETA = ("beta", "beta1", "beta2", "beta_1fu")
+    U1 = [1e-9, 1e-6, 1e-5, 1e-4, 3e-4, 1e-3, 3e-3, 0.01, 0.03, 0.1, 0.2, 0.35, 0.5, 0.65, 0.8, 0.9, 0.97, 0.99, 0.999, 0.9999, 1 - 1e-6, 1 - 1e-9]
+    DEL = 3e-6      # absolute offset of the ordinate deviate: above the co-simulation's knife-edge margin (1e-6), far below any real shape difference
+    sites = {}
+    for nm in allnames:
+        chain = S.bkg_names()[nm]
+        k0 = chain[0][0]
+        for (ei, p_) in S.witness_paths(k0):
+            first = None
+            for e_i in p_:
+                for it in S.data[k0]["edges"][e_i]["items"]:
+                    if it[0] == "call" and it[1] in BETA + ("pair", "nucltransK", "nucltransKL", "nucltransKLM", "nucltransKLM_Pb", "alpha", "gamma",
+                                                              "electron", "positron", "particle", "PbAtShell"):
+                        first = it
+                        break
+                if first:
+                    break
+            if first and first[1] in BETA and "?" not in first[2][:2]:
+                sig_ = (first[1],) + tuple(first[2][:2]) + tuple(first[2][5:]) if first[1] != "beta" else (first[1],) + tuple(first[2][:2])
+                sites.setdefault(sig_, (nm, k0, p_))
+    slist = sorted(sites.items())
+    if not thorough:
+        slist = rng.sample(slist, min(len(slist), 120))
+    ck.set("beta_spectra_probed", len(slist))
+    ajobs, ameta = [], {}
+    for si, (sig_, (nm, k0, p_)) in enumerate(slist):
+        for ui, u1 in enumerate(U1):
+            jid = "%s.bp%d.%d" % (nm, si, ui)
+            ajobs.append(sch.bjob(jid, pub.get(nm, nm), 1000 + si, [S.plan(k0, p_)], betaplan=[u1, 0.5, 0.5, 1e-12]))
+            ameta[jid] = (sig_, nm, k0, p_, u1, si)
+    atf = os.path.join(wd, "beta_a.trace")
+    rca, outa = vlib.sh([exe, "--trace", atf], input="\n".join(ajobs) + "\n", timeout=1800, env=vlib.harness_env("plain"))
+    if rca != 0:
+        ck.violation("cosim-crash:beta-probe", "co-simulation harness died on the beta boundary probes (rc=%s): %s" % (rca, outa[-600:]), None)
+    bound = {}
+    cur = None
+    if os.path.exists(atf):
+        for l in open(atf):
+            if '"Reset"' in l:
+                cur = json.loads(l)["id"]
+            elif cur and '"beta_trial"' in l and cur not in bound:
+                a = [float(x) for x in json.loads(l)["a"]]
+                bound[cur] = (a[0], a[2], a[3])     # E, fe, fm
+    bjobs, bmeta = [], {}
+    for jid, (sig_, nm, k0, p_, u1, si) in ameta.items():
+        if jid not in bound:
+            continue
+        E_, fe_, fm_ = bound[jid]
+        if not (fm_ > 0) or not (fe_ >= 0):
+            ck.violation("%s:beta-spectrum:%s" % (nm, sig_[0]), "%s: spectrum maximum %r / value %r at E=%r MeV of %s%s" % (nm, fm_, fe_, E_, sig_[0], sig_[1:]),
+                         {"job": [j for j in ajobs if j.split()[1] == jid]})
+            continue
+        r_ = fe_ / fm_
+        for tag, u2, then in (("lo", r_ - DEL, None), ("hi", r_ + DEL, (0.5, 1e-12))):
+            if tag == "lo" and not (u2 > 1e-300):
+                continue
+            if tag == "hi" and not (u2 < 1.0 and r_ > 0):
+                continue
+            j2 = "%s.%s" % (jid, tag)
+            plan = [u1, u2] + (list(then) if then else [])
+            line = sch.bjob(j2, pub.get(nm, nm), 1000 + si, [S.plan(k0, p_)], betaplan=plan)
+            bjobs.append(line)
+            bmeta[j2] = (sig_, nm, u1, E_, r_, tag, line)
+    nbs = 8
+    bres = []
+    with cf.ThreadPoolExecutor(max_workers=nbs) as ex:
+        def bshard(i):
+            return vlib.sh([exe], input="\n".join(bjobs[i::nbs]) + "\n", timeout=1800, env=vlib.harness_env("plain"))
+        for rc_, out_ in ex.map(bshard, range(nbs)):
+            if rc_ != 0:
+                ck.violation("cosim-crash:beta-probe", "co-simulation harness died on the beta boundary probes (rc=%s): %s" % (rc_, out_[-600:]), None)
+            bres += [json.loads(l) for l in out_.splitlines() if l.startswith("{")]
+    nprobe = 0
+    for rj in bres:
+        if rj["id"] not in bmeta:
+            continue
+        nprobe += 1
+        (sig_, nm, u1, E_, r_, tag, line) = bmeta[rj["id"]]
+        if rj["cls"] in ("agree", "y90-pair-deviation", "knife-edge-excluded"):
+            continue
+        ck.violation("%s:beta-boundary:%s" % (nm, sig_[0]),
+                     "%s, %s%s: at trial energy %.9g MeV (E-deviate %r) the port accepts up to fe/fm = %.12g; with the ordinate deviate %s it "
+                     "(by 3e-6) port and reference take different decisions: %s %s" % (
+                         nm, sig_[0], sig_[1:], E_, u1, r_, "just below" if tag == "lo" else "just above", rj["cls"], rj["detail"][:200]),
+                     {"job": line, "result": rj, "kind": "beta-boundary"})
+    ck.set("beta_boundary_probes", nprobe)
     # ---- 4. TLC validates the recorded scheme-level traces against the extracted graphs
     lines_total = 0
     with cf.ThreadPoolExecutor(max_workers=4) as ex:
